@@ -81,6 +81,9 @@ def translate(ctx):
     if p.returncode != 0:
         raise fv.InfraError('c03_py_extract.py failed: ' + p.stdout[-800:])
     py = json.load(open(os.path.join(fv.BUILD, 'c03_py.json')))
+    for prob in py.get('source_vs_runtime', []):
+        # the table carries the run-time values; a source that says something else is reported in any case
+        ctx.disagree('python source differs from the imported package: ' + prob, {'source_vs_runtime': prob})
     changed = cc.write_if_changed(os.path.join(GEN, 'C03Cxx.lean'), cx.to_lean(cxx))
     with open(os.path.join(fv.BUILD, 'c03_cxx.json'), 'w') as f:
         json.dump(cxx, f, indent=1)
@@ -331,6 +334,19 @@ def diff_tables(ctx, cxx, py, only=None):
     ctx.cov['input_distribution']['python_payload_classes'] = len(py['payload'])
 
 
+def failed_theorems(build_output):
+    """Names of the theorems of Props/C03.lean at whose lines the build reported errors."""
+    path = os.path.join(fv.LEAN, 'FeVerif', 'Props', 'C03.lean')
+    decl = [(i, m.group(1)) for i, line in enumerate(open(path), 1)
+            for m in [re.match(r'(?:theorem|example)\s*([A-Za-z0-9_]*)', line)] if m]
+    res = []
+    for ln in sorted(set(int(x) for x in re.findall(r'Props/C03\.lean:(\d+):\d+', build_output))):
+        prev = [n for i, n in decl if i <= ln]
+        if prev and (prev[-1] or 'example') not in res:
+            res.append(prev[-1] or 'example')
+    return res
+
+
 def run(ctx, only=None):
     try:
         cxx, py = translate(ctx)
@@ -347,6 +363,10 @@ def run(ctx, only=None):
             f for side in ('cxx', 'py') for f, h in sources_now()[side].items() if (last or {}).get(side, {}).get(f) != h))
         return None
     ctx.prove(MODULES, extra_targets=())
+    if ctx.proof_failures:
+        failed = failed_theorems('\n'.join(str(n) for n in ctx.notes))
+        if failed:
+            ctx.proof_failures.append('theorems whose `decide` fails on the regenerated tables: ' + ', '.join(failed))
     ctx.cov['trusted_base'] = [
         'Lean 4 kernel (4.33.0)', 'axioms: propext, Classical.choice, Quot.sound (audited per theorem)',
         'tools/c03_cxx_extract.py as a reader of NAMES (every value is printed by a C++ probe compiled against the headers; '
